@@ -310,7 +310,9 @@ def find_path(src, path):
     item = None
     for seg in path:
         seg = seg.strip()
-        kind, _, rest = seg.partition(' ')
+        m_ = re.match(r'[a-z_]+', seg)
+        kind = m_.group(0) if m_ else seg
+        rest = seg[len(kind):].strip()
         want = norm(seg)
         cands = []
         for it in items_in(toks, lo, hi):
